@@ -406,7 +406,7 @@ def topological_sort(nodes):
 
     def find_first_dep(dependency, start_index):
         for i, n in enumerate(islice(nodes, start_index, None), start_index):
-            if n.name == dependency:
+            if n.name == dependency and not isinstance(n, Include):
                 return i
 
     def model_sort_rotate():
@@ -418,10 +418,11 @@ def topological_sort(nodes):
                 if found_index:
                     nodes.insert(index, nodes.pop(found_index))
                 return True
-        known.add(node.name)
+        if not isinstance(node, Include):  # an include is called like its file: that is no definition's name
+            known.add(node.name)
 
     known = set(x + y for x in "uir" for y in ["8", "16", "32", "64"])
-    available = set(node.name for node in nodes)
+    available = set(node.name for node in nodes if not isinstance(node, Include))
     enumerator_owner = {member.name: node.name
                         for node in nodes if isinstance(node, Enum) for member in node.members
                         if member.name not in available}
